@@ -19,3 +19,46 @@ def run(run):
     preds.sweep(run, m, True)
     progcheck.run_programs(run, {"C01", "C19"}, 250 if quick else 6000, profile="l1", own={"C01"})
     progcheck.run_programs(run, {"C01", "C19"}, 150 if quick else 4000, profile="l2", own={"C01"}, with_steps=False)
+    value_changing(run)
+
+
+def value_changing(run):
+    """Operators that change VALUES (casts, rounding, clipping, fillna, replace, arithmetic) below filters / projections / reductions, on
+    data that such operators really change (wrap-around, rounding, truncation): optimized (both fuse modes) vs the unoptimized lowering."""
+    import numpy as np
+    import pandas as pd
+    import rt
+    from e2e import canon, concat_parts, exec_expr, try_, _short
+    pdf = pd.DataFrame({"a": np.array([0, 1, 100, 127, 128, 200, 255, 256, 300, 32768, 70000, -1, -129, 16777217, 5], dtype="int64"),
+                        "f": [0.0, 1.0, 1.5, 2.5, -0.5, 127.0, 128.0, 300.7, 16777217.0, 3e9, -1.0, 255.9, 70000.2, 0.1, np.nan],
+                        "g": range(15)})
+    ops = {}
+    for dst in ("int8", "int16", "int32", "uint8", "float32", "float64"):
+        ops["astype a->%s" % dst] = lambda d, dst=dst: d.astype({"a": dst})
+    for dst in ("float32", "int64", "int32"):
+        ops["astype f->%s" % dst] = lambda d, dst=dst: d.fillna(0).astype({"f": dst})
+    ops.update({"round": lambda d: d.round(), "clip": lambda d: d.clip(lower=1, upper=200), "fillna": lambda d: d.fillna(7), "replace": lambda d: d.replace(128, 3),
+                "abs": lambda d: d.abs(), "mod": lambda d: d % 128, "floordiv": lambda d: d // 100, "neg": lambda d: -d, "mul": lambda d: d * 3})
+    consumers = {"filter a > 100": lambda y: y[y.a > 100], "filter a < 0": lambda y: y[y.a < 0], "filter f == 16777216": lambda y: y[y.f == 16777216], "filter a == 1 then g": lambda y: y[y.a == 1].g,
+                 "filter (a >= 128) & (f < 200)": lambda y: y[(y.a >= 128) & (y.f < 200)], "filter then sum": lambda y: y[y.a <= 44][["g"]].sum(), "project a": lambda y: y[["a"]],
+                 "max": lambda y: y.a.max()}
+    n = 0
+    for on, op in ops.items():
+        for cn, cf in consumers.items():
+            with np.errstate(all="ignore"):
+                q = try_(lambda: cf(op(rt.dx.from_pandas(pdf, npartitions=3))))
+            if q[0] == "raise":
+                continue
+            ref = try_(lambda: canon(concat_parts(exec_expr(q[1].expr.lower_completely())), True))
+            if ref[0] == "raise":
+                continue
+            for fuse in (True, False):
+                n += 1
+                run.count(("value-changing", on, cn, fuse))
+                got = try_(lambda: canon(concat_parts(exec_expr(q[1].optimize(fuse=fuse).expr)), True))
+                case = {"kind": "value-changing", "op": on, "consumer": cn, "fuse": fuse}
+                if got[0] == "raise":
+                    run.violation("%s then %s: the optimized query (fuse=%s) fails (%s), the unoptimized one computes" % (on, cn, fuse, got[1]), case)
+                elif got[1] != ref[1]:
+                    run.violation("%s then %s: optimized (fuse=%s) %s, unoptimized %s" % (on, cn, fuse, _short(got[1]), _short(ref[1])), case)
+    run.section("value_changing", cases=n, operators=len(ops), consumers=len(consumers))
